@@ -54,6 +54,7 @@ type Features struct {
 	AllNsObjs   bool // every namespace has an object (needed by the eval CLI)
 	PodsOnly    bool // only bare pods (eval CLI)
 	PortDrift   bool // pods of one owner agree on labels but not on container ports (a rollout in progress)
+	Broad       bool // many policies with mostly empty selectors: several policies select the same pods
 }
 
 var allKinds = []string{"Deployment", "ReplicaSet", "StatefulSet", "DaemonSet", "Job", "CronJob", "ReplicationController", "Pod"}
@@ -71,6 +72,15 @@ func drawFeatures(r *rng) Features {
 		SharedOwner: r.chance(1, 3),
 	}
 	f.PortDrift = f.SharedOwner && r.chance(1, 3)
+	if r.chance(1, 2) {
+		// overlap profile: few namespaces, many policies whose selectors are mostly empty, so that pods
+		// are governed by several policies at once and cluster-wide / external exposure is common
+		f.Broad = true
+		f.NNamespaces = r.between(1, 2)
+		f.NNetpols = r.between(4, 8)
+		f.NANPs, f.BANP = 0, false
+		f.IPBlocks = true
+	}
 	if r.chance(1, 3) {
 		f.NANPs = r.between(1, 4)
 		f.BANP = r.chance(1, 2)
@@ -124,6 +134,34 @@ func toDoc(kind, ns, name string, obj interface{}) Doc {
 	return Doc{Kind: kind, NS: ns, Name: name, Text: string(b)}
 }
 
+func (f *Features) keys() []string {
+	if f.Broad {
+		return labelKeys[:2] // small vocabulary: selectors and pods meet often
+	}
+	return labelKeys
+}
+
+func (f *Features) vals() []string {
+	if f.Broad {
+		return labelVals[:2]
+	}
+	return labelVals
+}
+
+// randLabelsF draws pod labels from the world's vocabulary.
+func randLabelsF(r *rng, f *Features, min int) map[string]string {
+	m := map[string]string{}
+	for _, k := range f.keys() {
+		if r.chance(2, 3) {
+			m[k] = pick(r, f.vals())
+		}
+	}
+	for len(m) < min {
+		m[pick(r, f.keys())] = pick(r, f.vals())
+	}
+	return m
+}
+
 func randLabels(r *rng, min int) map[string]string {
 	m := map[string]string{}
 	for _, k := range labelKeys {
@@ -139,29 +177,29 @@ func randLabels(r *rng, min int) map[string]string {
 
 func randSelector(r *rng, f *Features, allowEmpty bool) metav1.LabelSelector {
 	s := metav1.LabelSelector{}
-	if allowEmpty && r.chance(1, 4) {
+	if allowEmpty && (r.chance(1, 4) || (f.Broad && r.chance(1, 2))) {
 		return s
 	}
 	if !f.Exprs || r.chance(1, 2) {
-		s.MatchLabels = map[string]string{pick(r, labelKeys): pick(r, labelVals)}
+		s.MatchLabels = map[string]string{pick(r, f.keys()): pick(r, f.vals())}
 		if r.chance(1, 4) {
-			s.MatchLabels[pick(r, labelKeys)] = pick(r, labelVals)
+			s.MatchLabels[pick(r, f.keys())] = pick(r, f.vals())
 		}
 		return s
 	}
 	n := r.between(1, 2)
 	for i := 0; i < n; i++ {
-		e := metav1.LabelSelectorRequirement{Key: pick(r, labelKeys)}
+		e := metav1.LabelSelectorRequirement{Key: pick(r, f.keys())}
 		switch r.intn(4) {
 		case 0:
 			e.Operator = metav1.LabelSelectorOpIn
-			e.Values = []string{pick(r, labelVals)}
+			e.Values = []string{pick(r, f.vals())}
 			if r.chance(1, 2) {
-				e.Values = append(e.Values, pick(r, labelVals))
+				e.Values = append(e.Values, pick(r, f.vals()))
 			}
 		case 1:
 			e.Operator = metav1.LabelSelectorOpNotIn
-			e.Values = []string{pick(r, labelVals)}
+			e.Values = []string{pick(r, f.vals())}
 		case 2:
 			e.Operator = metav1.LabelSelectorOpExists
 		default:
@@ -170,7 +208,7 @@ func randSelector(r *rng, f *Features, allowEmpty bool) metav1.LabelSelector {
 		s.MatchExpressions = append(s.MatchExpressions, e)
 	}
 	if r.chance(1, 4) {
-		s.MatchLabels = map[string]string{pick(r, labelKeys): pick(r, labelVals)}
+		s.MatchLabels = map[string]string{pick(r, f.keys()): pick(r, f.vals())}
 	}
 	return s
 }
@@ -264,7 +302,7 @@ func podDoc(ns, name string, labels map[string]string, ports []corev1.ContainerP
 }
 
 func randNPPorts(r *rng, f *Features, toIP bool) []netv1.NetworkPolicyPort {
-	if r.chance(1, 3) {
+	if (!f.Broad && r.chance(1, 3)) || (f.Broad && r.chance(1, 4)) {
 		return nil
 	}
 	var res []netv1.NetworkPolicyPort
@@ -273,6 +311,9 @@ func randNPPorts(r *rng, f *Features, toIP bool) []netv1.NetworkPolicyPort {
 		pp := netv1.NetworkPolicyPort{}
 		if r.chance(2, 3) {
 			pr := pick(r, protos)
+			if f.Broad && r.chance(2, 3) {
+				pr = corev1.ProtocolTCP // overlapping port sets need a common protocol
+			}
 			pp.Protocol = &pr
 		}
 		switch k := r.intn(4); {
@@ -297,6 +338,13 @@ func randNPPorts(r *rng, f *Features, toIP bool) []netv1.NetworkPolicyPort {
 func randNPPeers(r *rng, f *Features) (peers []netv1.NetworkPolicyPeer, hasIP bool) {
 	if r.chance(1, 5) {
 		return nil, false // no peers: everything
+	}
+	if f.Broad && r.chance(1, 2) {
+		// the two classic whole-world rules: "the internet" and "every namespace"
+		if r.chance(1, 3) {
+			return []netv1.NetworkPolicyPeer{{IPBlock: &netv1.IPBlock{CIDR: "0.0.0.0/0"}}}, true
+		}
+		return []netv1.NetworkPolicyPeer{{NamespaceSelector: &metav1.LabelSelector{}}}, false
 	}
 	n := r.between(1, 3)
 	for i := 0; i < n; i++ {
@@ -471,6 +519,9 @@ func genWorld(r *rng, f Features) *World {
 			kind = "Pod"
 		}
 		labels := randLabels(r, 1)
+		if f.Broad {
+			labels = randLabelsF(r, &f, 1)
+		}
 		ports := randContainerPorts(r)
 		targets = append(targets, svcTarget{ns, labels, ports})
 		if kind == "Pod" {
